@@ -205,6 +205,11 @@ func createCompiledRouteHandler(route *ast.Route, bytecode []byte, wsHub *websoc
 				var bodyMap map[string]interface{}
 				decoder := json.NewDecoder(limitedReader)
 				if err := decoder.Decode(&bodyMap); err == nil {
+					// Absent fields take their declared defaults before the
+					// body is validated and bound, as on the interpreter path.
+					if bodyMap != nil {
+						bodyMap = applyCompiledInputDefaults(route, bodyMap)
+					}
 					// Validate against the declared input type, as the
 					// interpreter path does. Without this a compiled route
 					// accepts any body at all: `< input: NewUser` was enforced
@@ -870,6 +875,35 @@ func validateCompiledInput(route *ast.Route, body map[string]interface{}) error 
 		return fmt.Errorf("input validation failed: %v", err)
 	}
 	return nil
+}
+
+// applyCompiledInputDefaults returns the request body with the declared
+// defaults of the route's input type filled in for absent fields, as the
+// interpreter does (ApplyTypeDefaults) before it validates and binds `input`.
+// Without it `role: str = "user"` gave {"name":"a","role":"user"} under
+// --interpret and {"name":"a"} compiled. Only literal defaults are evaluated
+// here; setupRoutes keeps a module with a computed default on the interpreter.
+func applyCompiledInputDefaults(route *ast.Route, body map[string]interface{}) map[string]interface{} {
+	named, ok := route.InputType.(ast.NamedType)
+	if !ok {
+		return body
+	}
+	typeDef, exists := compiledTypeDefs[named.Name]
+	if !exists {
+		return body
+	}
+	result := make(map[string]interface{}, len(body)+len(typeDef.Fields))
+	for k, v := range body {
+		result[k] = v
+	}
+	for _, field := range typeDef.Fields {
+		if _, present := result[field.Name]; !present && field.Default != nil {
+			if val, isLiteral := evalLiteralExpr(field.Default); isLiteral {
+				result[field.Name] = val
+			}
+		}
+	}
+	return result
 }
 
 // sendClientError reports a caller mistake with a 4xx, distinct from the
